@@ -13,12 +13,9 @@ import (
 // request produces the reply bytes at once; a Read with nothing pending means the handler is
 // waiting for a reply that will never come.
 type MC struct {
-	Items  map[string]*Item
-	Order  []string // insertion order of keys ever stored (deterministic iteration)
-	Now    int64
+	*MCStore
 	in     []byte
 	out    []byte
-	Log    []MCReq
 	Closed int
 	Writes int // number of Write calls (flush granularity)
 
@@ -28,6 +25,8 @@ type MC struct {
 	FaultStatus uint16 // status for FaultStatusReply
 	CutAt       int    // FaultCutReply: number of reply bytes delivered before the close
 	broken      bool   // connection closed by the fault
+	FaultedOp   uint8  // opcode of the request that was faulted
+	Faulted     bool
 	reqs        int
 
 	// MaxRead > 0 limits the bytes returned by one Read (segmentation)
@@ -44,6 +43,21 @@ const (
 	FaultCloseAfterReply
 	FaultCutReply
 )
+
+// MCStore is the server side shared by every connection to one backend: the items and the
+// request log.
+type MCStore struct {
+	Items map[string]*Item
+	Order []string // insertion order of keys ever stored (deterministic iteration)
+	Now   int64
+	Log   []MCReq
+}
+
+// NewConn opens another connection to the same backend (same items, fresh stream state, no
+// fault injected).
+func (m *MC) NewConn(name string) *MC {
+	return &MC{MCStore: m.MCStore, FaultAt: -1, Name: name}
+}
 
 // Item is one stored entry.
 type Item struct {
@@ -68,7 +82,7 @@ type MCReq struct {
 var ErrStarved = errors.New("fakemc: read with no reply pending")
 
 func NewMC(name string, now int64) *MC {
-	return &MC{Items: map[string]*Item{}, Now: now, FaultAt: -1, Name: name}
+	return &MC{MCStore: &MCStore{Items: map[string]*Item{}, Now: now}, FaultAt: -1, Name: name}
 }
 
 // Opcodes (memcached binary protocol + rend's gete extension).
@@ -301,6 +315,7 @@ func (m *MC) Write(p []byte) (int, error) {
 		m.reqs++
 		var rep []byte
 		if n == m.FaultAt && m.FaultKind != FaultNone {
+			m.FaultedOp, m.Faulted = op, true
 			switch m.FaultKind {
 			case FaultStatusReply:
 				m.Log = append(m.Log, MCReq{Op: op, Key: string(key), DataLen: len(body), Opaque: opaque})
